@@ -655,6 +655,10 @@ class Server(base_server.BaseServer):
         namespace = namespace or '/'
         sid = self.manager.sid_from_eio_sid(eio_sid, namespace)
         self.logger.info('received ack from %s [%s]', sid, namespace)
+        if not self.manager.is_connected(sid, namespace):
+            # (like its events, the acknowledgements of a client that is
+            # being disconnected are not dispatched any more)
+            return
         self.manager.trigger_callback(sid, id, data)
 
     def _trigger_event(self, event, namespace, *args):
